@@ -13,6 +13,13 @@ def src_hash(repo):
             h.update(open(p, "rb").read())
     for p in (os.path.join(V, "bin", "mk_overlay.sh"),):
         h.update(open(p, "rb").read())
+    # the environment models are compiled into the overlay as well
+    for root, _d, files in sorted(os.walk(os.path.join(V, "models"))):
+        if "/target" in root:
+            continue
+        for f in sorted(files):
+            if f.endswith((".rs", ".toml")):
+                h.update(open(os.path.join(root, f), "rb").read())
     return h.hexdigest()[:16]
 
 
